@@ -323,9 +323,83 @@ Proof.
   inversion Hall; subst. destruct H2 as [-> _]. auto.
 Qed.
 
+(* rows that carry their own field names (Row / namedtuple), renamed by the schema argument *)
+Lemma names_eqb_eq : forall a b, names_eqb a b = true -> a = b.
+Proof.
+  induction a as [|x a IH]; destruct b as [|y b]; simpl; intros E; try discriminate; auto.
+  apply andb_true_iff in E. destruct E as [E1 E2]. apply name_eqb_eq in E1. f_equal; auto.
+Qed.
+
+(* when the row's own names are duplicate-free (or equal to the struct's), the converted row has one
+   value per struct name *)
+Lemma match_by_name_length : forall own names d vs,
+  length d = length own -> (nodup_names own = true \/ length names = length own) ->
+  forallb (fun n => mem_name n own) names = true ->
+  match_by_name own names d = Ok vs -> length vs = length names.
+Proof.
+  intros own names d vs Hd Hnd Hsub H. unfold match_by_name in H. rewrite Hsub in H. rewrite andb_true_r in H.
+  destruct (names_eqb own names) eqn:E; simpl in H.
+  - inversion H; subst. apply names_eqb_eq in E. subst. auto.
+  - destruct (nodup_names own) eqn:N; simpl in H.
+    + eapply mapM_length; eauto.
+    + inversion H; subst. destruct Hnd as [Hnd|Hnd]; [discriminate|]. congruence.
+Qed.
+Lemma match_by_name_length_same : forall own names d vs,
+  length d = length own -> length names = length own ->
+  match_by_name own names d = Ok vs -> length vs = length names.
+Proof.
+  intros own names d vs Hd Hl H. unfold match_by_name in H.
+  destruct (negb (names_eqb own names) && nodup_names own && forallb (fun n => mem_name n own) names).
+  - eapply mapM_length; eauto.
+  - inversion H; subst. congruence.
+Qed.
+
+(* rows that carry their own field names (Row / namedtuple), renamed by the schema argument *)
+Lemma wf_create_rows : forall is_row by_struct own names data p,
+  (by_struct = true -> is_row = true -> nodup_names own = true) ->
+  create_rows is_row by_struct own names data = Ok p -> wf_pre p.
+Proof.
+  intros is_row by_struct own names data p Hnd H. unfold create_rows in H.
+  destruct (forallb (fun d => Nat.eqb (length d) (length own)) data) eqn:Hlen; simpl in H; [|discriminate].
+  rewrite forallb_forall in Hlen.
+  destruct by_struct.
+  - destruct is_row; simpl in H.
+    + destruct data as [|d0 data0]; [inversion H; subst; apply struct_of_wf; constructor|].
+      remember (d0 :: data0) as data.
+      destruct (forallb (fun n => mem_name n own) names) eqn:Hsub; simpl in H; [|discriminate].
+      inv_bind H as rs Hrs. inversion H; subst p. apply struct_of_wf.
+      rewrite map_map. simpl. rewrite map_id.
+      rewrite Forall_forall. intros r Hin.
+      destruct (mapM_In _ _ _ _ Hrs Hin) as [d [Hd Hr]].
+      inv_bind Hr as vs Hvs. inversion Hr; subst. split; simpl; auto.
+      eapply match_by_name_length; [|left; exact (Hnd eq_refl eq_refl)|exact Hsub|exact Hvs].
+      apply Nat.eqb_eq. apply Hlen. exact Hd.
+    + destruct (forallb (fun d => Nat.eqb (length d) (length names)) data) eqn:E; [|discriminate].
+      inversion H; subst. apply struct_of_wf. rewrite map_map. simpl. rewrite map_id.
+      rewrite forallb_forall in E. rewrite Forall_forall. intros r Hin.
+      apply in_map_iff in Hin. destruct Hin as [d [<- Hd]]. split; simpl; auto. apply Nat.eqb_eq. auto.
+  - destruct data as [|first rest]; [discriminate|]. remember (first :: rest) as data.
+    destruct (forallb _ _); [|discriminate].
+    inv_bind H as fnames Hfn. inv_bind H as nnames Hnn. inv_bind H as rs Hrs. inversion H; subst p.
+    assert (nnames = fnames) by congruence. subst nnames.
+    unfold wf_pre; simpl. rewrite map_map. simpl. rewrite map_id. split; auto.
+    apply rename_loop_length in Hfn.
+    rewrite Forall_forall. intros r Hin.
+    destruct (mapM_In _ _ _ _ Hrs Hin) as [d [Hd Hr]].
+    inv_bind Hr as vs Hvs. inversion Hr; subst. split; simpl; auto.
+    assert (Hld : length d = length own) by (apply Nat.eqb_eq; auto).
+    destruct is_row.
+    + eapply match_by_name_length_same; eauto.
+    + inversion Hvs; subst. congruence.
+Qed.
+
 (* ---------- every reachable DataFrame ---------- *)
 Definition instr_rect (i : instr) : Prop :=
-  match i with ICreate false _ data => rectangular data | _ => True end.
+  match i with
+  | ICreate false _ data => rectangular data
+  | ICreateRows true true own _ _ => nodup_names own = true    (* Row objects under a StructType *)
+  | _ => True
+  end.
 
 Lemma get_wf : forall env s f, Forall wf env -> get env s = Ok f -> wf f.
 Proof.
@@ -354,6 +428,7 @@ Proof.
   - inv_bind H as f Hf. inv_bind H as u Hu. eapply wf_distinct; eauto using get_wf.
   - inv_bind H as f Hf. inv_bind H as u Hu. eapply wf_sample; eauto using get_wf.
   - inv_bind H as f Hf. eapply wf_repartition; eauto using get_wf.
+  - eapply wf_create_rows; [|exact H]. intros -> ->. exact Hrect.
 Qed.
 
 Lemma wf_run : forall prog env c, Forall wf env -> Forall instr_rect prog ->
@@ -470,5 +545,9 @@ Lemma frame_create_struct : forall names data p c, create true names data = Ok p
 Proof. intros. apply finish_wf. eapply wf_create; eauto. discriminate. Qed.
 Lemma frame_create_names : forall names data p c, rectangular data -> create false names data = Ok p -> wf (fst (finish c p)).
 Proof. intros. apply finish_wf. eapply wf_create; eauto. Qed.
+Lemma frame_create_rows : forall is_row by_struct own names data p c,
+  (by_struct = true -> is_row = true -> nodup_names own = true) ->
+  create_rows is_row by_struct own names data = Ok p -> wf (fst (finish c p)).
+Proof. intros. apply finish_wf. eapply wf_create_rows; eauto. Qed.
 Lemma frame_range : forall a b s p c, range_frame a b s = Ok p -> wf (fst (finish c p)).
 Proof. intros. apply finish_wf. eapply wf_range; eauto. Qed.
